@@ -35,6 +35,9 @@ def opOracle (op : String) (c : Ctx) (x y : Dec) (iarg : Int) (o : Out) : List (
     let e := iarg
     if !(wfDec x) || x.exp - e > 100000 || e < -100000 || e > 100000 then [] else
     let r := quantSpec c x e
+    -- the 100000-discarded-digits boundary (C09_quantize_syslimit; DESIGN.md finding F1) is excluded
+    if !((ndigits x.coeff : Int) < e - x.exp || e - x.exp < 100000 ||
+         (e - x.exp == 100000 && ndigits r.1 ≤ ndigits (x.coeff / 10 ^ 100000))) then [] else
     let etiny : Int := c.emin - (c.prec : Int) + 1
     if e < etiny || e > c.emax || ndigits r.1 > c.prec || (r.1 != 0 && e + (ndigits r.1 : Int) - 1 > c.emax) then
       (if o.d.form == .nan && o.fl == Cond.cInvalidOp then [] else [("C09", "expected NaN with InvalidOperation")])
@@ -47,6 +50,8 @@ def opOracle (op : String) (c : Ctx) (x y : Dec) (iarg : Int) (o : Out) : List (
     if !(wfDec x) then [] else
     let r := quantSpec c x 0
     if (ndigits r.1 : Int) - 1 > c.emax then [] else
+    if !((ndigits x.coeff : Int) < -x.exp || -100000 < x.exp ||
+         (x.exp == -100000 && ndigits r.1 ≤ ndigits (x.coeff / 10 ^ 100000))) then [] else
     (if o.d == { form := .finite, neg := x.neg, exp := 0, coeff := r.1 } then [] else
       [("C09", s!"expected integer {r.1}")]) ++
     (if op == "rtie" then
